@@ -319,7 +319,7 @@ def run_check(pid: str, tier: str, replay: str | None = None) -> int:
     for e in known:
         if e["id"] in known_hits:
             print(f"KNOWN-FINDING: property={pid} {e['id']} {e['description']} "
-                  f"(hit by {known_hits[e['id']]} generated cases)")
+                  f"(hit by {known_hits[e["id"]]} case(s) in this run)")
 
     # 4. shrink new buckets and write replays
     from .gen import dump_case
